@@ -439,40 +439,24 @@ func (i *interpreter) readIndex(xs []value, idx value) value {
 // selectChain builds ite(idx==0, xs[0], ite(idx==1, ...)). Runs of equal
 // constants are merged into range tests to keep table lookups small.
 func (i *interpreter) selectChain(xs []value, idx *smt.Term) *smt.Term {
-	cx := i.cx
-	w := idx.W
-	// an index that is itself a table lookup result (ite tree over constants):
-	// push this lookup to its leaves
-	if r, ok := cx.MapLeaves(idx, func(l *smt.Term) *smt.Term {
-		k := l.Uint64()
-		if k >= uint64(len(xs)) {
-			k = 0 // excluded by the preceding bounds check
-		}
-		return i.term(xs[k])
-	}); ok {
-		return r
+	leaves := make([]*smt.Term, len(xs))
+	for k, x := range xs {
+		leaves[k] = i.term(x)
 	}
-	res := i.term(xs[len(xs)-1])
-	for j := len(xs) - 2; j >= 0; j-- {
-		e := i.term(xs[j])
-		if e == res {
-			continue
+	// an index that is itself a table lookup result (ite tree over constants)
+	// without chain information: push this lookup to its leaves
+	if i.cx.Chains[idx.ID] == nil {
+		if r, ok := i.cx.MapLeaves(idx, func(l *smt.Term) *smt.Term {
+			k := l.Uint64()
+			if k >= uint64(len(xs)) {
+				k = 0 // excluded by the preceding bounds check
+			}
+			return leaves[k]
+		}); ok {
+			return r
 		}
-		// all indices <= j that share value e form a run [j0..j]
-		j0 := j
-		for j0 > 0 && i.term(xs[j0-1]) == e {
-			j0--
-		}
-		var c *smt.Term
-		if j0 == j {
-			c = cx.Eq(idx, cx.BV(uint64(j), w))
-		} else {
-			c = cx.And(cx.Ule(cx.BV(uint64(j0), w), idx), cx.Ule(idx, cx.BV(uint64(j), w)))
-		}
-		res = cx.Ite(c, e, res)
-		j = j0
 	}
-	return res
+	return i.cx.Select(leaves, idx)
 }
 
 // concreteKey resolves a (possibly symbolic) map key against map m: if it
@@ -1283,6 +1267,18 @@ func callBuiltin(caller *frame, callpos token.Pos, fn *ssa.Builtin, args []value
 
 	case "ssa:deferstack":
 		return &caller.defers
+
+	case "String": // unsafe.String(ptr *byte, len)
+		n := int(i.concreteInt(args[1]))
+		if n == 0 {
+			return ""
+		}
+		p := args[0].(*value)
+		if p == nil {
+			panic(targetPanic{"unsafe.String: ptr is nil and len is not zero"})
+		}
+		// the element pointer points into a Go []value backing array
+		return normStr(append([]value{}, unsafe.Slice(p, n)...))
 	}
 
 	panic("unknown built-in: " + fn.Name())
